@@ -978,7 +978,8 @@ class Variable(CanBehaveLikeAVariable[T]):
             self._update_domain_(self._domain_source_.domain)
 
     def _update_domain_(self, domain):
-        if domain:
+        # do not ask for the truth value of the domain, it can be a user object (a single instance or a container)
+        if domain is not None:
             if isinstance(domain, HashedIterable):
                 self._domain_ = domain
                 return
@@ -1137,15 +1138,16 @@ class Literal(Variable[T]):
         original_data = data
         data = [data]
         if not type_:
-            if hasattr(original_data, "__next__"):
-                # a one-shot iterable would be consumed by looking at its first value
+            if isinstance(original_data, (list, tuple, set, frozenset)):
+                first_value = next(iter(original_data), None)
+            elif is_iterable(original_data):
+                # a one-shot iterable would be consumed by looking at its first value, and iterating a user defined
+                # container runs user code. Both are only looked at when the literal is evaluated.
                 first_value = None
             else:
-                original_data_lst = make_list(original_data)
-                first_value = (
-                    original_data_lst[0] if len(original_data_lst) > 0 else None
-                )
-            type_ = type(first_value) if first_value else None
+                first_value = original_data
+            # do not ask for the truth value of the first value, it can be a user object
+            type_ = type(first_value) if first_value is not None else None
         if name is None:
             if type_:
                 name = type_.__name__
